@@ -119,6 +119,14 @@ func genGun(r *rand.Rand, inst int) string {
 		}
 		return r.Intn(rows)
 	}
+	// a second data source whose list has the same name (source.vars.users): its [next] counter is its own
+	rows2 := -1
+	if r.Intn(3) == 0 {
+		rows2 = 1 + r.Intn(7)
+		if inst > 1 {
+			rows2 = 1 + r.Intn(40)
+		}
+	}
 	// which variables each request produces
 	type vars struct{ pre, post []string }
 	prod := map[string]*vars{}
@@ -129,9 +137,14 @@ func genGun(r *rand.Rand, inst int) string {
 		method := pick(r, "G", "P")
 		var pre []string
 		mode := r.Intn(4) // 0: none, 1-2: source draws, 3: references
-		hasNext := false
+		hasNext, hasM := false, false
 		switch mode {
 		case 1, 2:
+			if rows2 >= 0 && r.Intn(2) == 0 {
+				pre = append(pre, "u9=m")
+				v.pre = append(v.pre, "u9")
+				hasM = true
+			}
 			for j, k := 0, 1+r.Intn(3); j < k; j++ {
 				vn := fmt.Sprintf("v%d", j)
 				switch x := r.Intn(8); {
@@ -175,7 +188,7 @@ func genGun(r *rand.Rand, inst int) string {
 				return fmt.Sprintf("s%d", rn())
 			}
 		}
-		allowErr := !(inst > 1 && hasNext)
+		allowErr := !(inst > 1 && (hasNext || hasM))
 		var uri, body, post []string
 		for j, k := 0, r.Intn(4); j < k; j++ {
 			uri = append(uri, part(allowErr))
@@ -269,7 +282,11 @@ func genGun(r *rand.Rand, inst int) string {
 		}
 		orc = append(orc, strings.Join(o, ","))
 	}
-	return fmt.Sprintf("kind=gun inst=%d shots=%d L=%d rq=%s sc=%s or=%s", inst, shots, rows, strings.Join(defs, ";"), strings.Join(scs, ";"), strings.Join(orc, "/"))
+	l2 := ""
+	if rows2 >= 0 {
+		l2 = fmt.Sprintf(" L2=%d", rows2)
+	}
+	return fmt.Sprintf("kind=gun inst=%d shots=%d L=%d%s rq=%s sc=%s or=%s", inst, shots, rows, l2, strings.Join(defs, ";"), strings.Join(scs, ";"), strings.Join(orc, "/"))
 }
 
 // ---------------------------------------------------------------- kind=first
@@ -292,6 +309,60 @@ func genFirst(r *rand.Rand, mode string, thorough bool) string {
 	return fmt.Sprintf("kind=first mode=%s inst=%d shots=%d L=%d rounds=%d", mode, inst, shots, rows, rounds)
 }
 
+// ---------------------------------------------------------------- exhaustive small enumerations (thorough tier)
+
+// every request list of 1..3 items over a small alphabet (one scenario), and every weight vector of 2..3 scenarios
+// over {absent, 0, 1, 2, 3, 4, 6} plus the 4-vectors over {absent, 2, 3, 4}
+func genExhaustive() []string {
+	var out []string
+	items := []string{"a", "a(2)", "a(0)", "a(2,3)", "b", "sleep(4)", "sleep"}
+	var rec func(prefix []string, depth int)
+	rec = func(prefix []string, depth int) {
+		if len(prefix) > 0 {
+			var es []string
+			for _, it := range prefix {
+				es = append(es, escv(it))
+			}
+			out = append(out, fmt.Sprintf("kind=prov n=9 rq=a|b sc=s1:1:0:%s", strings.Join(es, "|")))
+		}
+		if depth == 0 {
+			return
+		}
+		for _, it := range items {
+			rec(append(append([]string{}, prefix...), it), depth-1)
+		}
+	}
+	rec(nil, 3)
+	ws := []string{"-", "0", "1", "2", "3", "4", "6"}
+	var wrec func(prefix []string, alphabet []string, depth int)
+	wrec = func(prefix []string, alphabet []string, depth int) {
+		if depth == 0 {
+			var scs []string
+			n := 0
+			for i, w := range prefix {
+				scs = append(scs, fmt.Sprintf("s%d:%s:0:a", i+1, w))
+				switch w {
+				case "-", "0":
+					n++
+				default:
+					var v int
+					fmt.Sscan(w, &v)
+					n += v
+				}
+			}
+			out = append(out, fmt.Sprintf("kind=prov n=%d rq=a sc=%s", 2*n+1, strings.Join(scs, ";")))
+			return
+		}
+		for _, w := range alphabet {
+			wrec(append(append([]string{}, prefix...), w), alphabet, depth-1)
+		}
+	}
+	wrec(nil, ws, 2)
+	wrec(nil, ws, 3)
+	wrec(nil, []string{"-", "2", "3", "4"}, 4)
+	return out
+}
+
 func gen(r *rand.Rand, tier string) []string {
 	nProv, nGun1, nGun4, nCtl, nPar := 800, 340, 170, 12, 3
 	if tier == "thorough" {
@@ -312,6 +383,15 @@ func gen(r *rand.Rand, tier string) []string {
 	}
 	for i := 0; i < nGun4; i++ {
 		out = append(out, genGun(r, 4))
+	}
+	if tier == "thorough" {
+		out = append(out, genExhaustive()...)
+		for i := 0; i < 400; i++ {
+			out = append(out, genGun(r, 2))
+		}
+		for i := 0; i < 400; i++ {
+			out = append(out, genGun(r, 8))
+		}
 	}
 	return out
 }
